@@ -56,7 +56,7 @@ func main() {
 		os.Exit(2)
 	}
 	repo := os.Args[1]
-	var mapRange, captured, goStmt, fileWrite, indexWrite inv
+	var mapRange, captured, goStmt, fileWrite, indexWrite, invokeCalls inv
 	for _, d := range dirs {
 		fset := token.NewFileSet()
 		pkgs, err := parser.ParseDir(fset, filepath.Join(repo, d), func(fi os.FileInfo) bool {
@@ -280,6 +280,9 @@ func main() {
 								goStmt.add(where + ": select")
 							case *ast.CallExpr:
 								s := src(fset, v.Fun)
+								if fname == "Action.Invoke" {
+									invokeCalls.add(where + ": call " + s)
+								}
 								switch s {
 								case "os.WriteFile", "os.Rename", "os.Create", "os.OpenFile", "os.Remove", "os.RemoveAll", "os.MkdirAll", "os.CreateTemp", "os.Chtimes":
 									fileWrite.add(where + ": " + s)
@@ -320,6 +323,7 @@ func main() {
 	emit("go_stmt_sites", goStmt)
 	emit("file_write_sites", fileWrite)
 	emit("index_write_sites", indexWrite)
+	emit("invoke_call_sites", invokeCalls)
 	old, _ := os.ReadFile(os.Args[2])
 	if string(old) != out.String() {
 		if err := os.WriteFile(os.Args[2], []byte(out.String()), 0o644); err != nil {
